@@ -83,7 +83,8 @@ type Exec struct {
 	realBlk      *ssa.BasicBlock
 	abruptFrame  bool
 	exitCut      map[*ssa.BasicBlock]int
-	frameMemo    *frameInfo
+	frameMemo    map[bool]*frameInfo
+	abruptExit   bool // the frame is being checked at a panicking exit
 	blockStart   map[string]int // reach condition of a CFG block -> script position where the block begins
 	deadCtx      int // >0: obligations generated now lie on a path that may legitimately be dead
 	abruptOn     int
